@@ -9,6 +9,17 @@
   Expected exception content: cap = 0 → exactly `failing`; cap = n > 0 → if fewer than n fields fail, exactly
   `failing`; otherwise the first n failing fields, the first n−1 complete and the n-th with a non-empty
   prefix of its messages (collection stops when the cap is reached — pinned by the library's core tests).
+
+  Enum fields (README "Serializing enum types": an enum is saved as the string registered for it; pinned test
+  ConvertEnums.EnumFromCStr: "One", u"TWO", U"three" all convert — letter case is ignored): the field is loaded iff the
+  document holds a STRING that equals a registered name up to ASCII letter case (`registered`); any other string, any
+  value of another type, nil, an absent key leave the member as it was.
+
+  MismatchedTypesPolicy (README "Error handling": "When a type from the archive does not match to the target value (can be
+  configured via MismatchedTypesPolicy)"; options doc: ThrowError is the default, Skip ignores the value): under ThrowError
+  a value that is present, not null and not loadable into its target ends the load with
+  SerializationException(MismatchedTypes) — unless maxValidationErrors was already reached by the fields loaded before it
+  (`occsT`, `failingBefore`, `judgeT`). A document without such a value is loaded as under Skip.
 -/
 import BSVerif.Valid.Model
 
@@ -48,12 +59,24 @@ def strKey (key : String) (v : Val) : Bool :=
 def valueAt (entries : List (Val × Val)) (key : String) : Option Val :=
   (entries.find? fun e => strKey key e.1).map (·.2)
 
-/-- is the document value loadable into a leaf of this kind, and what do validators see -/
+/-- a string with its ASCII capital letters replaced by small ones -/
+def foldCase (s : List Nat) : List Nat := s.map fun c => if 65 ≤ c ∧ c ≤ 90 then c + 32 else c
+
+/-- the enumerator a string names: the position of the registered name it equals up to letter case -/
+def registered (s : List Nat) : Option Nat := enumNames.findIdx? fun n => foldCase n == foldCase s
+
+/-- is the document value loadable into a leaf of this kind, and what do validators see (an enum member that is not
+    loaded still holds its initial value) -/
 def leafView : Leaf → Option Val → Bool × Seen
   | .int, some (.sc (.int v)) => (true, ⟨v, 0⟩)
   | .str, some (.sc (.str s)) => (true, ⟨0, s.length⟩)
   | .optInt, some (.sc (.int _)) => (true, ⟨0, 0⟩)
   | .vecInt, some (.arr items) => (true, ⟨0, items.length⟩)
+  | .enm, some (.sc (.str s)) =>
+    match registered s with
+    | some i => (true, ⟨i, 0⟩)
+    | none => (false, ⟨enumInitial, 0⟩)
+  | .enm, _ => (false, ⟨enumInitial, 0⟩)
   | _, _ => (false, ⟨0, 0⟩)
 
 def flatOccs (pfx : String) (fields : List LeafField) (entries : List (Val × Val)) : List Occ :=
@@ -122,6 +145,8 @@ def leafState : Leaf → Option Val → LeafVal
   | .optInt, _ => .opt none
   | .vecInt, some (.arr items) => .vec (items.map fun it => match it with | .sc (.int v) => v | _ => 0)
   | .vecInt, _ => .vec []
+  | .enm, some (.sc (.str s)) => .enm ((registered s).getD enumInitial)
+  | .enm, _ => .enm enumInitial
 
 def flatState (fields : List LeafField) (entries : List (Val × Val)) : FlatVal :=
   fields.map fun f => leafState f.kind (valueAt entries f.key)
@@ -170,5 +195,89 @@ def judge (stateStr : List FieldVal → String) (canonMsg : String → String) (
       else match s with
         | some s => if s != st then "bad:passing_fields_not_loaded" else "ok"
         | none => if cap = 0 ∨ expected.length < cap then "bad:state_missing" else "ok"
+
+/-! ### MismatchedTypesPolicy::ThrowError -/
+
+def isNil : Val → Bool
+  | .sc .nil => true
+  | _ => false
+
+/-- the document holds, for a leaf of this kind, a value that is neither null nor loadable into it (for a vector of
+    integers: an element that is neither an integer nor null counts as well) -/
+def leafMismatch (k : Leaf) (v : Option Val) : Bool :=
+  match v with
+  | none => false
+  | some v =>
+    !isNil v &&
+      match k, v with
+      | .vecInt, .arr items => items.any fun it => match it with
+          | .sc (.int _) => false
+          | .sc .nil => false
+          | _ => true
+      | k, v => !(leafView k (some v)).1
+
+/-- the visited fields with a marker `none` where a mismatched value stands -/
+def flatOccsT (pfx : String) (fields : List LeafField) (entries : List (Val × Val)) : List (Option Occ) :=
+  fields.map fun f =>
+    let v := valueAt entries f.key
+    if leafMismatch f.kind v then none
+    else let w := leafView f.kind v; some ⟨pfx ++ "/" ++ f.key, f.validators, w.2, w.1⟩
+
+def fieldOccsT (f : Field) (v : Option Val) : List (Option Occ) :=
+  let p := "/" ++ f.key
+  match f.kind, v with
+  | .leaf k, v => if leafMismatch k v then [none] else let w := leafView k v; [some ⟨p, f.validators, w.2, w.1⟩]
+  | .obj fields, some (.map es) => flatOccsT p fields es ++ [some ⟨p, f.validators, ⟨0, 0⟩, true⟩]
+  | .vecObj fields, some (.arr items) =>
+    (items.zipIdx.flatMap fun it => match it.1 with
+      | .map es => flatOccsT (p ++ "/" ++ toString (it.2 + 1)) fields es
+      | .sc .nil => []
+      | _ => [none]) ++ [some ⟨p, f.validators, ⟨0, items.length⟩, true⟩]
+  | .mapObj fields, some (.map es) =>
+    let strs := es.filter fun e => match e.1 with | .sc (.str _) => true | _ => false
+    (strs.flatMap fun e => match e.1, e.2 with
+      | .sc (.str k), .map es' => flatOccsT (p ++ "/" ++ String.ofList (k.map Char.ofNat)) fields es'
+      | _, .sc .nil => []
+      | _, _ => [none]) ++ [some ⟨p, f.validators, ⟨0, strs.length⟩, true⟩]
+  | _, none => [some ⟨p, f.validators, ⟨0, 0⟩, false⟩]
+  | _, some v => if isNil v then [some ⟨p, f.validators, ⟨0, 0⟩, false⟩] else [none]
+
+def occsT (cls : List Field) (doc : Val) : List (Option Occ) :=
+  match doc with
+  | .map es => cls.flatMap fun f => fieldOccsT f (valueAt es f.key)
+  | v => if isNil v then [] else [none]
+
+def hasMismatch (cls : List Field) (doc : Val) : Bool := (occsT cls doc).any Option.isNone
+
+/-- the fields visited before the first mismatched value -/
+def beforeMismatch (cls : List Field) (doc : Val) : List Occ := ((occsT cls doc).takeWhile Option.isSome).filterMap id
+
+def failingOf (os : List Occ) : List (String × List String) :=
+  os.filterMap fun o => let ms := occMessages o; if ms.isEmpty then none else some (o.path, ms)
+
+/-- what the validators of the fields loaded before the first mismatched value report -/
+def failingBefore (cls : List Field) (doc : Val) : List (String × List String) := failingOf (beforeMismatch cls doc)
+
+/-- the judgement of a `val.loadt` answer: a document without a mismatched value is judged as under Skip; with one, the
+    answer must be MismatchedTypes, unless the cap is reached by the fields before it (then the capped report) -/
+def judgeT (stateStr : List FieldVal → String) (canonMsg : String → String) (cap : Nat) (cls : List Field) (doc : Val)
+    (a : Answer) : String :=
+  if !hasMismatch cls doc then judge stateStr canonMsg cap cls doc a
+  else
+    let expected := (failingBefore cls doc).map fun e => (e.1, e.2.map canonMsg)
+    if !nodupPaths expected then "nospec"
+    else
+      let capped : Bool := decide (0 < cap) && decide (cap ≤ expected.length)
+      match a with
+      | .ok _ => "bad:no_exception_although_a_value_is_mismatched_under_ThrowError"
+      | .err c =>
+        if c != "mismatched" then s!"bad:unexpected_exception_{c}"
+        else if capped then "bad:MismatchedTypes_although_maxValidationErrors_was_reached_before_the_mismatched_value"
+        else "ok"
+      | .validation errs st =>
+        if !capped then "bad:ValidationException_although_a_mismatched_value_ends_the_load_first"
+        else if !acceptErrors cap expected errs then "bad:reported_fields_or_messages_differ"
+        else if st.isSome then "bad:state_of_an_abandoned_load"
+        else "ok"
 
 end BSVerif.Valid.Spec
